@@ -29,10 +29,13 @@ def runner_of(cid):
 
 def regen_table(run):
     """The translator step: dump the transition table the linked go-fsm really has."""
-    rc, out = C.sh([os.path.join(C.BIN, "fsmtable"), "-o", GEN], timeout=120)
-    if rc != 0:
-        run.violation("fsmtable-failed", {"out": out[-2000:]}, "the FSM table dumper failed", True)
+    tmp = C.gen_tmp("FsmTable.v")
+    rc, out = C.sh([os.path.join(C.BIN, "fsmtable"), "-o", tmp], timeout=120)
+    if rc != 0 or not os.path.exists(tmp):
+        if run is not None:
+            run.violation("fsmtable-failed", {"out": out[-2000:]}, "the FSM table dumper failed", True)
         return False
+    C.install_gen("FsmTable.v", tmp)         # atomically, only if changed; put back after a run on a scratch tree
     return True
 
 
@@ -227,7 +230,10 @@ def run(run):
     regen_table(run)                      # BEFORE the Coq build: the graph lemmas are re-checked against it
     okc, clog, failed = C.coq_build()
     if not okc:
-        lem = failing_lemmas(clog)
+        # only the files THIS property declares: another property's broken obligation (e.g. props/C07.v against a
+        # RunnerShape.v regenerated from another tree) is that property's business, reported by its own check
+        mine = set([PROP] + PROOFS)
+        lem = [x for x in failing_lemmas(clog) if x.split(":")[0] in mine]
         if lem:
             run.violation("obligation:" + ",".join(lem), {"lemmas": lem, "log_tail": clog[-3000:], "table": open(GEN).read()},
                           "no longer checks against the regenerated FSM table: " + ", ".join(lem), True)
@@ -243,9 +249,11 @@ def run(run):
     quick = run.tier == "quick"
     BATCH_TIMEOUT[0] = 100 if quick else 1500
     shards = 4 if quick else max(4, C.NPROC // 2)
-    plan = [("compfail", 48 if quick else 1500), ("slowsub", 2 if quick else 12),
-            ("raw", 500 if quick else 5000), ("composite", 230 if quick else 3000),
-            ("http", 28 if quick else 450), ("cluster", 14 if quick else 260)]
+    plan = [("compfail", run.scaled(48) if quick else 1500), ("slowsub", 2 if quick else 12), ("slowlive", 2 if quick else 30),
+            ("raw", run.scaled(500) if quick else 5000), ("composite", run.scaled(230) if quick else 3000),
+            ("http", run.scaled(28) if quick else 450), ("cluster", run.scaled(14) if quick else 260)]   # scaled: anchor drift
+    if quick and run.escalate > 1:
+        BATCH_TIMEOUT[0] = 100 * run.escalate
     stats, line_of, mism, samples = {}, {}, [], []
     # corpus first: recorded interesting cases (re-generated from their ids; scheduling may differ)
     corpus = os.path.join(C.VERIF, "corpus", "C08", "cases.txt")
@@ -334,9 +342,12 @@ def replay(path):
         return 1
     if not cid:
         print("replay names a broken obligation or correspondence, not an input:", rp.get("what"))
-        C.sh([os.path.join(C.BIN, "fsmtable"), "-o", GEN])
+        regen_table(None)
         okc, clog, failed = C.coq_build()
-        print("coq build:", "ok" if okc else "FAILED %s %s" % (failed, failing_lemmas(clog)))
+        mine = set([PROP] + PROOFS)
+        failed = [f for f in failed if f in mine]
+        okc = okc or not failed
+        print("coq build:", "ok" if okc else "FAILED %s %s" % (failed, [x for x in failing_lemmas(clog) if x.split(":")[0] in mine]))
         if not okc:
             print("VIOLATION property=C08 replay=%s no-failing-input-found" % path)
             return 1
